@@ -60,23 +60,23 @@ open PdshVerif.Dsh PdshVerif.Dsh.Timed
 /-- every timed execution, with clock, watchdog and reads forgotten, is an execution of the fan-out
     LTS of C03/C04 -/
 theorem fan_refinement {v f c scripts} {ls : List Label} {s : St} (he : Exec (init v f c scripts) ls s) :
-    Fan.Exec (Fan.init v f scripts.length) (ls.filterMap projLabel) s.fan := by
+    FanG.Exec (FanG.init v f scripts.length) (ls.filterMap projLabel) s.fan := by
   simpa [init] using exec_proj he
 
 /-- C04 for the timed system: faults and timeouts never push the number of connections in flight
     beyond the fanout (`while` construct) -/
 theorem inflight_le_fanout_timed {f c scripts} {s : St} (h : Reach .whileWait f c scripts s) :
-    Fan.inflight s.fan ≤ f := by
+    FanG.inflight s.fan ≤ f := by
   have hr := reach_proj h
   obtain ⟨ls, he⟩ := hr
-  have hb := Fan.bound_exec (s0 := Fan.init .whileWait f scripts.length) rfl (Fan.inv_init _ _ _)
-    (Fan.bound_init _ _ _) he
-  have hf := (Fan.exec_params he).2.1
-  simp [Fan.init] at hf
-  have h2 := (Fan.inv_exec (Fan.inv_init _ _ _) he).cnt
-  have h3 := Fan.flying_le_counted s.fan.ws
+  have hb := FanG.bound_exec (s0 := FanG.init .whileWait f scripts.length) rfl (FanG.inv_init _ _ _)
+    (FanG.bound_init _ _ _) he
+  have hf := (FanG.exec_params he).2.1
+  simp [FanG.init] at hf
+  have h2 := (FanG.inv_exec (FanG.inv_init _ _ _) he).cnt
+  have h3 := FanG.flying_le_counted s.fan.ws
   have := hb.le
-  unfold Fan.inflight; omega
+  unfold FanG.inflight; omega
 
 /-- C04 ACROSS TIMEOUTS, in terms of the target records: the number of targets whose connect has begun and whose
     `rcmd_destroy` has not returned never exceeds the fanout — whatever refuses, hangs, is given up on at a
@@ -89,7 +89,7 @@ theorem inflight_le_fanout {f c scripts} {s : St} (h : Reach .whileWait f c scri
 /-- a remote command that is alive belongs to a worker that still holds its fanout slot (it is between
     `rcmd_connect` and the return of `rcmd_destroy`): the slot is released only after the command is gone -/
 theorem alive_holds_slot {v f c scripts} {s : St} (h : Reach v f c scripts s) {j : Nat} (hj : j < s.hs.length)
-    (ha : (s.host j).alive s.now = true) : Fan.flying (Fan.pc s.fan j) = true := by
+    (ha : (s.host j).alive s.now = true) : FanG.flying (FanG.pc s.fan j) = true := by
   obtain ⟨ls, he⟩ := h
   have hti := tinv_exec (tinv_init _ _ _ _) he
   have hdi := dinv_exec he
@@ -113,7 +113,7 @@ theorem alive_le_fanout {f c scripts} {s : St} (h : Reach .whileWait f c scripts
 
 /-- while the command is not gone the worker stays in `rcmd_destroy` -/
 theorem teardown_waits {v f c scripts} {s : St} (h : Reach v f c scripts s) {j : Nat} (hj : j < s.hs.length)
-    (hpc : Fan.pc s.fan j = .tearing) (ha : (s.host j).alive s.now = true) :
+    (hpc : FanG.pc s.fan j = .tearing) (ha : (s.host j).alive s.now = true) :
     step s (.fan (.w j .destroyEnd)) = none := by
   have hti := tinv_reach h
   have hfin : (s.host j).ph = .finished := by
@@ -124,7 +124,7 @@ theorem teardown_waits {v f c scripts} {s : St} (h : Reach v f c scripts s) {j :
     | true => have := (hti.hosts j hj).intrPh hh; rw [hfin] at this; simp at this
   have hng : (s.host j).gone s.now = false := by simpa [Host.alive] using ha
   simp only [step, dstep]
-  cases Fan.step s.fan (.w j .destroyEnd) <;> simp [fanGuard, hint, hng]
+  cases FanG.step s.fan (.w j .destroyEnd) <;> simp [fanGuard, hint, hng]
 
 /-- no signal is ever pending for a target that is being torn down: the wait in `rcmd_destroy` is never
     interrupted, so a command is never given up un-reaped -/
@@ -141,11 +141,12 @@ theorem each_target_connected_once {v f c scripts} {ls : List Label} {s : St}
     (ls.filterMap projLabel).count (.w i .connectBegin) = 1 ∧
     (ls.filterMap projLabel).count (.w i .destroyEnd) = 1 := by
   have hfe := fan_refinement he
-  have hinv := Fan.inv_exec (Fan.inv_init v f scripts.length) hfe
+  have hinv := FanG.inv_exec (FanG.inv_init v f scripts.length) hfe
   have hlen : s.fan.ws.length = scripts.length := by
-    have := (Fan.exec_params hfe).2.2; simpa [Fan.init] using this
-  have hdone : Fan.pc s.fan i = .done := hinv.fin (by rw [hf]; rfl) i (by omega)
-  constructor <;> rw [Fan.hist_exec hfe, hdone] <;> simp [Fan.ord, Fan.WAct.post]
+    have := (FanG.exec_params hfe).2.2; simpa [FanG.init] using this
+  have hout : FanG.isOut (FanG.pc s.fan i) = true := hinv.fin (by rw [hf]; rfl) i (by omega)
+  constructor <;> rw [(FanG.hist_exec hfe).common i _ rfl] <;> revert hout <;>
+    cases FanG.pc s.fan i <;> simp [FanG.isOut, FanG.ord, FanG.WAct.post]
 
 /-- NON-INTERFERENCE (one step): target `j`'s record after any step is `hostStep` of its record before:
     a function of the record, `j`'s own script, the timeouts and the clock — nothing else -/
@@ -180,9 +181,11 @@ theorem healthy_complete {v f c scripts} {ls : List Label} {s : St} (he : Exec (
   have hti := tinv_exec (tinv_init v f c scripts) he
   have hj' : j < s.hs.length := by rw [hl]; exact hj
   -- the worker is done, so the target is finished
-  have hdone : Fan.pc s.fan j = .done := hti.fan.fin (by rw [hf]; rfl) j (by rw [← hti.lenH]; exact hj')
+  have hout : FanG.isOut (FanG.pc s.fan j) = true :=
+    hti.fan.fin (by rw [hf]; rfl) j (by rw [← hti.lenH]; exact hj')
   have hph : (s.host j).ph = .finished := by
-    have := hti.sync j hj'; rw [hdone] at this; simpa [phOK] using this
+    have := hti.sync j hj'; revert hout this
+    cases FanG.pc s.fan j <;> simp [phOK, FanG.isOut]
   obtain ⟨hres, hoc, hec⟩ := h4.fin hph
   have hscr : s.script j = scripts.getD j defaultScript := by simp [St.script, hs]
   refine ⟨hres, ?_, ?_⟩
@@ -293,9 +296,11 @@ theorem immortal_never_returns {v f c scripts} {ls : List Label} {s : St} (he : 
   have hdi := dinv_exec he
   obtain ⟨_, _, hlen, _⟩ := ginv_exec he
   have hj' : j < s.hs.length := by rw [hlen]; exact hj
-  have hdone : Fan.pc s.fan j = .done := hti.fan.fin (by rw [hfin]; rfl) j (by rw [← hti.lenH]; exact hj')
+  have hout : FanG.isOut (FanG.pc s.fan j) = true :=
+    hti.fan.fin (by rw [hfin]; rfl) j (by rw [← hti.lenH]; exact hj')
   have hr : (s.host j).reaped = true := by
-    have := hdi.reap j hj'; rw [hdone] at this; simpa [rpOK] using this
+    have := hdi.reap j hj'; revert hout this
+    cases FanG.pc s.fan j <;> simp [rpOK, FanG.isOut]
   have hgone := (hdi.host j hj').gone hr
   simp [Host.gone, him.started hst] at hgone
 
@@ -342,7 +347,7 @@ theorem never_stuck (s : St) (hnf : ¬ Final s) : ∃ l, l.spurious = false ∧ 
     simp only [cands, List.mem_cons, List.mem_append, List.mem_map, List.mem_flatMap, List.mem_range] at hl
     rcases hl with (rfl | ⟨a, ha, rfl⟩) | ⟨i, _, rfl | ⟨a, _, rfl⟩⟩
     · rfl
-    · simp only [Fan.dActs, List.mem_cons, List.mem_nil_iff, or_false] at ha
+    · simp only [FanG.dActs, List.mem_cons, List.mem_nil_iff, or_false] at ha
       rcases ha with rfl | rfl | rfl | rfl | rfl | rfl | rfl <;> rfl
     · rfl
     · rfl
@@ -362,7 +367,7 @@ example :
        .fan (.d .ret)]
     (ls.foldlM (fun s l => step s l) (init .whileWait 1 { ct := 1, ut := 1, sopt := false, selfCheck := false, stopWdog := false } scripts)).map
       (fun s => (s.now, (s.host 0).res, (s.host 1).res, (s.host 1).out.got, s.fan.dpc)) =
-      some (2, Res.connTimedOut, Res.done, 3, Fan.DPC.returned) := by
+      some (2, Res.connTimedOut, Res.done, 3, FanG.DPC.returned) := by
   decide
 
 /-- witness for `immortal_never_returns` (and for the teardown phase): fanout 1, both timeouts 1, one target whose
@@ -377,10 +382,10 @@ example :
        .tick, .tick, .scan, .wake 0, .fan (.w 0 .destroyBegin),
        .tick, .tick, .scan, .tick, .tick, .scan, .tick]
     (ls.foldlM (fun s l => step s l) (init .whileWait 1 { ct := 1, ut := 1, sopt := false, selfCheck := false, stopWdog := false } scripts)).map
-      (fun s => (s.now, (s.host 0).res, Fan.pc s.fan 0,
+      (fun s => (s.now, (s.host 0).res, FanG.pc s.fan 0,
                  (step s (.fan (.w 0 .destroyEnd))).isNone && s.inflight == 1 && s.alive == 1 &&
                  (step s .tick).isSome)) =
-      some (7, Res.cmdTimedOut, Fan.W.tearing, true) := by
+      some (7, Res.cmdTimedOut, FanG.W.tearing, true) := by
   decide
 
 /-- the same target, but it dies 1 s after SIGTERM (`grace = some 1`, `Td c 1`): given up on at second 2, gone at
@@ -395,7 +400,7 @@ example :
        .fan (.d .unlock), .fan (.d .ret)]
     (ls.foldlM (fun s l => step s l) (init .whileWait 1 { ct := 1, ut := 1, sopt := false, selfCheck := false, stopWdog := false } scripts)).map
       (fun s => (s.now, (s.host 0).res, (s.host 0).reaped, s.inflight, s.fan.dpc)) =
-      some (3, Res.cmdTimedOut, true, 0, Fan.DPC.returned) := by
+      some (3, Res.cmdTimedOut, true, 0, FanG.DPC.returned) := by
   decide
 
 end PdshVerif.Props.C07
